@@ -1,3 +1,4 @@
 import Generated.HelperTable
 import Generated.IoAliases
 import Generated.IoSites
+import Generated.ProxyTable
